@@ -23,6 +23,10 @@ structure Codec (α : Type) where
   wf : α → Bool
   toks : α → List String
   ofToks : List String → Option (α × List String)
+  /-- bytes of heap the Go decoder requests through `make`/`readBytes`/string conversions whose
+      size is taken from the wire (a count or a length), while parsing this input — whether or
+      not parsing succeeds.  An upper-bound trace: fixed-size copies are counted too. -/
+  alloc : Bytes → Nat := fun _ => 0
 
 /-- Encoding followed by any suffix parses back to the value and leaves the suffix. -/
 def Codec.Sound (c : Codec α) : Prop :=
@@ -71,6 +75,7 @@ def bytesN (n : Nat) : Codec Bytes where
   ofToks
     | t :: r => (bytesOfHex t).map (·, r)
     | [] => none
+  alloc bs := if n ≤ bs.length then n else 0
 
 /-- Byte string with a `k`-byte big-endian length prefix (`writeString` for k = 1;
     `writeUint16(len) + writeBytes` for k = 2; …).  The length prefix wraps like Go's
@@ -88,6 +93,11 @@ def lp (k : Nat) : Codec Bytes where
   ofToks
     | t :: r => (bytesOfHex t).map (·, r)
     | [] => none
+  alloc bs :=
+    if k ≤ bs.length then
+      let n := unbe (bs.take k)
+      if n ≤ (bs.drop k).length then n else 0
+    else 0
 
 /-- A field that *includes* its own one-byte length prefix (SOCKS-style domain address,
     domain route prefix): the decoder peeks the first byte `b` and takes `1 + b` bytes. -/
@@ -103,6 +113,9 @@ def peek1 : Codec Bytes where
   ofToks
     | t :: r => (bytesOfHex t).map (·, r)
     | [] => none
+  alloc
+    | [] => 0
+    | b :: r => if b.toNat ≤ r.length then 1 + b.toNat else 0
 
 /-- Forward-route prefix `[keyLen][key][targetLen][target]`, peeked the way
     `DecodeRouteAdvertise` does (`AddrFamilyForward`). -/
@@ -127,6 +140,12 @@ def fwdPrefix : Codec Bytes where
   ofToks
     | t :: r => (bytesOfHex t).map (·, r)
     | [] => none
+  alloc
+    | [] => 0
+    | k :: r =>
+      match r.drop k.toNat with
+      | [] => 0
+      | t :: r2 => if t.toNat ≤ r2.length then 1 + k.toNat + 1 + t.toNat else 0
 
 /-- A codec that never parses and has no well-formed values (unknown address type). -/
 def failC : Codec Bytes where
@@ -158,6 +177,9 @@ def seq (a : Codec α) (b : Codec β) : Codec (α × β) where
       match b.ofToks r with
       | none => none
       | some (y, r') => some ((x, y), r')
+  alloc bs := a.alloc bs + (match a.dec bs with
+    | some (_, r) => b.alloc r
+    | none => 0)
 
 /-- Second field's layout depends on the first (address type → address layout). -/
 def dep (a : Codec τ) (f : τ → Codec β) : Codec (τ × β) where
@@ -178,6 +200,9 @@ def dep (a : Codec τ) (f : τ → Codec β) : Codec (τ × β) where
       match (f x).ofToks r with
       | none => none
       | some (y, r') => some ((x, y), r')
+  alloc bs := a.alloc bs + (match a.dec bs with
+    | some (x, r) => (f x).alloc r
+    | none => 0)
 
 /-- Exactly `n` items, one after the other (the loop `for i := 0; i < n && r.err == nil`). -/
 def repDec (c : Codec α) : Nat → Bytes → Option (List α × Bytes)
@@ -202,9 +227,16 @@ def repToks (c : Codec α) : Nat → List String → Option (List α × List Str
 
 def encAll (c : Codec α) (l : List α) : Bytes := (l.map c.enc).flatten
 
+/-- allocation of the item loop: every item started, up to the first that fails -/
+def repAlloc (c : Codec α) : Nat → Bytes → Nat
+  | 0, _ => 0
+  | n+1, bs => c.alloc bs + (match c.dec bs with
+    | some (_, r) => repAlloc c n r
+    | none => 0)
+
 /-- List with a `k`-byte count prefix (`writeAgentIDs`, route lists, capability lists). The
     count wraps modulo `256^k` on encoding, as `uint8(len(x))` does. -/
-def listN (k : Nat) (c : Codec α) : Codec (List α) where
+def listN (k : Nat) (c : Codec α) (esz : Nat := 16) : Codec (List α) where
   enc l := beN k l.length ++ encAll c l
   dec bs :=
     if k ≤ bs.length then repDec c (unbe (bs.take k)) (bs.drop k) else none
@@ -215,10 +247,13 @@ def listN (k : Nat) (c : Codec α) : Codec (List α) where
       | some n => repToks c n r
       | none => none
     | [] => none
+  -- `make([]T, count)` with `esz = sizeof(T)` BEFORE the items are read, then the items
+  alloc bs :=
+    if k ≤ bs.length then esz * unbe (bs.take k) + repAlloc c (unbe (bs.take k)) (bs.drop k) else 0
 
 /-- Accept only values satisfying `p` (a nested decode that must succeed, e.g. the plaintext
     path inside `EncryptedData`). -/
-def refine (c : Codec α) (p : α → Bool) : Codec α where
+def refine (c : Codec α) (p : α → Bool) (nested : α → Nat := fun _ => 0) : Codec α where
   enc := c.enc
   dec bs :=
     match c.dec bs with
@@ -227,6 +262,10 @@ def refine (c : Codec α) (p : α → Bool) : Codec α where
   wf a := c.wf a && p a
   toks := c.toks
   ofToks := c.ofToks
+  -- `nested x`: what the nested decode that computes `p x` allocates
+  alloc bs := c.alloc bs + (match c.dec bs with
+    | some (x, _) => nested x
+    | none => 0)
 
 /-- Encoder-side normalisation (`if len(msg) > 255 { msg = msg[:255] }`). -/
 def preEnc (c : Codec α) (norm : α → α) : Codec α where
@@ -235,9 +274,14 @@ def preEnc (c : Codec α) (norm : α → α) : Codec α where
   wf a := c.wf a && (c.enc (norm a) == c.enc a)
   toks := c.toks
   ofToks := c.ofToks
+  alloc := c.alloc
 
 /-- Top-level message decoder: minimum-length pre-check, parse, ignore trailing bytes. -/
 def decodeTop (minLen : Nat) (c : Codec α) (bs : Bytes) : Option α :=
   if bs.length < minLen then none else (c.dec bs).map (·.1)
+
+/-- allocation of a top-level decoder: nothing is read below the minimum length -/
+def decodeTopAlloc (minLen : Nat) (c : Codec α) (bs : Bytes) : Nat :=
+  if bs.length < minLen then 0 else c.alloc bs
 
 end MM.C05
